@@ -109,3 +109,36 @@ def atomic_field_ops(F, body, adt_suffix, field, rx):
 def real_bodies(F, root):
     """bodies of a function group that carry a CFG of their own (skip tracing callsite statics)"""
     return [b for b in F.group_bodies(root) if b.kind in ("Fn", "AssocFn", "Closure") or b.coroutine]
+
+
+def slice_up(F, body, op, through_calls=False, _depth=0):
+    """Slice of an operand that also follows captured variables into the enclosing body
+    (closure upvar i = operand i of the closure aggregate in the parent).  Returns a set of sources."""
+    s = Slice(F, body, through_calls).operand(op)
+    out = set(s.sources)
+    if _depth > 4 or not body.parent or body.parent not in F.bodies:
+        return out
+    names = [x[1] for x in s.sources if x[0] == "upvar"]
+    if not names:
+        return out
+    pb = F.bodies[body.parent]
+    for blk in pb.blocks:
+        for st in blk["st"]:
+            rv = st.get("rv")
+            if rv and rv["k"] == "agg" and rv.get("closure") == body.id:
+                for n in names:
+                    # a captured place `a.b.c` is listed under its full path; match by position
+                    if n in body.upvars:
+                        i = body.upvars.index(n)
+                        if i < len(rv["ops"]):
+                            out |= slice_up(F, pb, rv["ops"][i], through_calls, _depth + 1)
+    return out
+
+
+def src_has_call(sources, rx):
+    r = re.compile(rx)
+    return any(x[0] == "call" and (r.search(strip_generics(x[1])) or r.search(x[1])) for x in sources)
+
+
+def src_has_field(sources, adt_suffix, field):
+    return any(x[0] == "field" and x[2] == field and strip_generics(x[1]).endswith(adt_suffix) for x in sources)
